@@ -11,7 +11,10 @@ for f in sorted(glob.glob('/verif/seeded/*/meta.json')):
     title = d['title'].replace('|', '/')
     title = re.sub(r'^m\d+\s*[-:]\s*', '', title)
     first = cr.get('first_outcome', '')
-    note = 'caught as built' if not first else 'missed at first; ' + cr.get('strengthening', '')
+    if d.get('kind','').startswith('control'):
+        note = 'CONTROL (behaviour-preserving): the check must stay silent'
+    else:
+        note = 'caught as built' if not first else 'missed at first; ' + cr.get('strengthening', '')
     rows.append(f"| {d['id']} | {d['property']} | {title[:110]} | {cr['outcome'].lower()} (`{cls}`) | {note.replace('|','/')} |")
 table = "\n".join(rows)
 text = f"""### 9.5 Seeded changes and which check catches them
@@ -19,8 +22,8 @@ text = f"""### 9.5 Seeded changes and which check catches them
 Every directory under `/verif/seeded/` is one change to csgura/fp written by an independent sub-agent that was given only the text
 of one property and a scratch worktree (nothing from /verif). Each was confirmed by `tools/confirm_seeded.sh` in a fresh worktree
 (demo passes on the clean tree, fails with the patch, the repository's own suite passes with the patch) and then run against the
-property's quick check with `tools/try_seeded.sh` (apply, `./check <ID> quick`, restore). {len(rows)} changes, all caught; the last column
-says which ones were missed at first and what was strengthened. None of them is ever applied to /repo.
+property's quick check with `tools/try_seeded.sh` (apply, `./check <ID> quick`, restore). {len(rows)} changes; every breaking change is caught (the last column
+says which ones were missed at first and what was strengthened), every CONTROL - a behaviour-preserving refactoring of code the property passes through, written by the same sub-agents - leaves its check silent. None of them is ever applied to /repo.
 
 | change | property | what it does | quick check | note |
 |--------|----------|--------------|-------------|------|
